@@ -124,9 +124,19 @@ package composite
 //@ props C05
 //@ ghost refsPersisted bool = false
 //@ ghost applied intset = emptyintset
+//@ ghost failed intset = emptyintset
+//@ site composite.RenderFromCompositePatches(_, _, _)
+//@   update failed = ite(err != nil, add(failed, i), failed)
+//@ site composite.RenderComposedResourceMetadata(_, _, _)
+//@   update failed = ite(err != nil, add(failed, i), failed)
+//@ site (names.NameGenerator).GenerateName(_, _, _)
+//@   update failed = ite(err != nil, add(failed, i), failed)
 //@ loop range tas
+//@   invariant [C10:unprocessed-entries-empty] forall j :: done <= j && j < len(tas) ==> (cds[j] == nil && !(j in failed))
+//@   invariant [C10:failed-render-leaves-no-resource] forall j :: 0 <= j && j < done && (j in failed) ==> cds[j] == nil
 //@   invariant [C05:rendered-are-composed-resources] len(cds) == len(tas) && forall j :: 0 <= j && j < len(tas) ==> (cds[j] == nil || typeis(cds[j], *composed.Unstructured))
 //@ loop range tas #1
+//@   invariant [C10:failed-render-still-no-resource] forall j :: 0 <= j && j < len(tas) && (j in failed) ==> cds[j] == nil
 //@   invariant [C05:composed-resources-kept] forall j :: 0 <= j && j < len(tas) ==> (cds[j] == nil || typeis(cds[j], *composed.Unstructured))
 //@   invariant [C05:applied-or-dropped] forall j :: 0 <= j && j < done && cds[j] != nil ==> (j in applied)
 //@   invariant [C05:cds-sized] len(cds) == len(tas)
@@ -140,7 +150,7 @@ package composite
 //@ site (resource.Applicator).Apply(_, _, $o, $opts...) as Apply-composed
 //@   where typeis($o, *composed.Unstructured)
 //@   assert [C01:refs-persisted-before-apply] refsPersisted
-//@   assert [C10:only-rendered-resources-applied] $o == cds[i] && cds[i] != nil
+//@   assert [C10:only-rendered-resources-applied] $o == cds[i] && cds[i] != nil && !(i in failed)
 //@   update applied = ite(err == nil, add(applied, i), applied)
 //@ ensures [C05:every-template-reported] err == nil ==> len(result.Composed) == len(tas)
 //@ ensures [C05:reported-synced-only-if-applied] err == nil ==> forall j :: 0 <= j && j < len(result.Composed) ==> (result.Composed[j].Synced ==> (j in applied))
